@@ -9,7 +9,9 @@ Case (JSON):
    "gnames": "str" | "int",                                               # how group indices are named
    "yidx" / "sfidx" / "xidx": "default" | "perm" | "offset" | "str",       # pandas index LABELS of y / sensitive_features / X
    "perm": [permutation of 0..n-1],                                       #   (only for the series / dataframe containers);
-   "yname": bool}                                                         # y DataFrame with a named column
+   "yname": bool,                                                         # y DataFrame with a named column
+   "query": [[group index or -1 (= a value not seen by fit), "score"], ...],  # rows handed to _pmf_predict / predict
+   "pseed": int}                                                          # random_state of that predict call
 Rows are always paired by POSITION; index labels must never matter.
 """
 import itertools
@@ -40,23 +42,85 @@ WTOL = 1e-9         # mixture weights below this are ignored when comparing oper
 # _extend_confusion_matrix, actual/flipped counts, operations, equalized-odds counts, constraint/objective tables).
 PINNED_TABLES_SHA256 = "88782a97a44b434bcc82955feb2860c3bab9105de4e8a43adc88e9fc8767d3fc"
 _TABLES_STATE = {}
+MAX_TIE_REPORTS = 2
+
+
+# every generated file the Threshold model is built from -> sha256 of its content as lifted from the pinned tree
+PINNED_GENERATED = {
+    "ThresholdTables.lean": PINNED_TABLES_SHA256,
+    "TradeoffSrc.lean": "d61ccec458631118203af93bf40a727da5c5059713053a9a641d539aa80a4059",
+    "ThresholderSrc.lean": "e8eca555041924fd761db20bc5b1ecc2f78490203f85fbd3c516d3929ba7ff4c",
+    "ThresholdFitSrc.lean": "b4c864c257fde297b40071a4c32b225e4e2c34903cb8005de94db88f04dbf5f6",
+}
+
+
+def generated_changed(pinned):
+    """True when one of the generated files `name -> sha256 of the pinned tree's lift` has other content"""
+    import hashlib
+    import os
+    from . import leanrun
+    for name, want in pinned.items():
+        path = os.path.join(leanrun.LEAN, "FairModel", "Generated", name)
+        try:
+            with open(path, "rb") as f:
+                if hashlib.sha256(f.read()).hexdigest() != want:
+                    return True
+        except OSError:
+            pass
+    return False
 
 
 def tables_changed():
-    """True when the translator lifted tables that differ from the pinned tree's.  The Lean model is built FROM these
-    tables, so a model-vs-oracle disagreement is then a statement about the source (its formulas no longer are the
-    first-principles metrics), not a bug of this machinery."""
+    """True when the translator lifted tables / expressions that differ from the pinned tree's.  The Lean model is built
+    FROM these files, so a model-vs-oracle disagreement is then a statement about the source (its formulas no longer are
+    the first-principles ones), not a bug of this machinery."""
     if "v" not in _TABLES_STATE:
         import hashlib
         import os
         from . import leanrun
-        path = os.path.join(leanrun.LEAN, "FairModel", "Generated", "ThresholdTables.lean")
-        try:
-            with open(path, "rb") as f:
-                _TABLES_STATE["v"] = hashlib.sha256(f.read()).hexdigest() != PINNED_TABLES_SHA256
-        except OSError:
-            _TABLES_STATE["v"] = False
+        changed = False
+        for name, want in PINNED_GENERATED.items():
+            path = os.path.join(leanrun.LEAN, "FairModel", "Generated", name)
+            try:
+                with open(path, "rb") as f:
+                    changed = changed or hashlib.sha256(f.read()).hexdigest() != want
+            except OSError:
+                pass
+        _TABLES_STATE["v"] = changed
     return _TABLES_STATE["v"]
+
+
+def tie_broken():
+    """the source under check is KNOWN to differ from the pinned tree in lifted text: a generated file changed, or one of
+    the Threshold lifters refuses the source (then the generated files keep their old content)"""
+    if "broken" not in _TABLES_STATE:
+        broken = tables_changed()
+        if not broken:
+            from . import translate
+            from .core import REPO
+            from .lifters import threshold, thresholder, thresholdfit, tradeoff
+            for fn in (threshold.lift_threshold, tradeoff.lift_tradeoff, thresholder.lift_thresholder,
+                       thresholdfit.lift_thresholdfit):
+                try:
+                    fn(REPO)
+                except translate.Untranslatable:
+                    broken = True
+                except OSError:
+                    pass
+        _TABLES_STATE["broken"] = broken
+    return _TABLES_STATE["broken"]
+
+
+def cap_when_tie_broken(probs):
+    """With a broken tie nearly every case shows `implementation != model`; the runner stops exploring after 5 violating
+    cases, so such correspondence-only results are passed on for the first MAX_TIE_REPORTS cases only.  Cases on which the
+    implementation fails the property's own oracle (kind 'property') are always passed on: the exploration goes on until
+    one is found or the budget ends, and the verdict prefers it."""
+    probs = [p for p in probs if p is not None and p.kind != "tie-noted"]
+    if not probs or not tie_broken() or any(p.kind in ("property", "harness") for p in probs):
+        return probs
+    _TABLES_STATE["corr_only"] = _TABLES_STATE.get("corr_only", 0) + 1
+    return probs if _TABLES_STATE["corr_only"] <= MAX_TIE_REPORTS else []
 
 
 def model_problem(msg, pid):
@@ -64,6 +128,12 @@ def model_problem(msg, pid):
     changed it is reported as a broken tie instead (relation <pid>.generated-tables-vs-oracle)."""
     from .core import Problem
     if tables_changed():
+        # reported for the first few cases only: the run stops exploring after 5 violating cases, and with a model
+        # that follows an edited source nearly every case would be one -- the exploration has to go on so that the
+        # property oracle gets the chance to find an input on which the IMPLEMENTATION fails
+        _TABLES_STATE["reported"] = _TABLES_STATE.get("reported", 0) + 1
+        if _TABLES_STATE["reported"] > MAX_TIE_REPORTS:
+            return Problem("tie-noted", msg)
         return Problem("correspondence", "translator-fed model departs from the first-principles oracle "
                        "(source tables changed): " + msg, f"{pid}.generated-tables-vs-oracle")
     return Problem("harness", msg)
@@ -113,13 +183,17 @@ def gen_case(rng, tier, small=False):
         obj = rng.choice(["accuracy_score"] * 7 + ["balanced_accuracy_score"] * 7 + OBJ_SIMPLE[2:] * 2)
     ng = rng.choice([2, 2, 2, 3, 3, 4, 5])
     style = rng.random()
-    if style < 0.55:      # heavy ties: few levels
+    near = None
+    if style < 0.45:      # heavy ties: few levels
         nl = rng.choice([2, 3, 3, 4, 5, 6])
         levels = rng.sample([F(k, 8) for k in range(-4, 13)], nl)
-    elif style < 0.8:     # distinct dyadics
+    elif style < 0.63:    # distinct dyadics
         levels = None
-    else:                 # integer valued "hard" predictions 0/1 (what predict of a classifier returns)
+    elif style < 0.78:    # integer valued "hard" predictions 0/1 (what predict of a classifier returns)
         levels = [F(0), F(1)]
+    else:                 # NEAR-TIES: clusters of pairwise distinct scores that differ by a few 2^t ulps (t drawn over
+        #                   the whole range down to 2 ulps), mixed with exact ties and well separated scores
+        levels, near = near_tie_levels(rng)
     rows = []
     for g in range(ng):
         if small:
@@ -134,6 +208,15 @@ def gen_case(rng, tier, small=False):
             sc = [rng.choice(levels) for _ in range(m)]
             if len(set(sc)) == 1:        # tied by chance: draw once more
                 sc = [rng.choice(levels) for _ in range(m)]
+            if near is not None and rng.random() < 0.7:
+                # the group sees every rung of one ladder (plus ties / other levels)
+                ladder = rng.choice(near)
+                extra = [rng.choice(levels) for _ in range(max(m - len(ladder), rng.choice([1, 2, 3])))]
+                sc = list(ladder) + extra
+                rng.shuffle(sc)
+                m = len(sc)
+                labs = [0, 1] + [rng.randint(0, 1) for _ in range(m - 2)]
+                rng.shuffle(labs)
             if rng.random() < 0.05:      # uninformative group: all scores tied (ROC hull = diagonal)
                 sc = [sc[0]] * m
         informative = rng.random() < 0.7
@@ -153,13 +236,71 @@ def gen_case(rng, tier, small=False):
     while len(rows) > 1 and perm == sorted(perm):
         rng.shuffle(perm)
     kinds = ["default", "perm", "perm", "offset", "str"]
-    return {"constraint": cons, "objective": obj, "flip": rng.random() < 0.5,
+    query = gen_query(rng, rows)
+    return {"query": query, "pseed": rng.randrange(10 ** 6), "constraint": cons, "objective": obj, "flip": rng.random() < 0.5,
             "grid": rng.choice(GRIDS if not small else [1, 2, 3, 5, 7, 10, 10, 100]),
             "rows": rows, "container": rng.choice(["ndarray", "ndarray2d", "list", "list2d", "series", "series",
                                                    "dataframe", "dataframe"]),
             "gnames": rng.choice(["str", "int"]),
             "yidx": rng.choice(kinds), "sfidx": rng.choice(kinds), "xidx": rng.choice(kinds), "perm": perm,
             "yname": rng.random() < 0.5}
+
+
+def _ulp(x):
+    return F(math.ulp(float(x)))
+
+
+def near_tie_levels(rng):
+    """score levels for the near-tie stream: 1-3 bases k/8, around each a cluster base + j * 2^t * ulp(base) with small
+    integer j and t >= 1 (so that the midpoint of any two members is again exactly representable: the implementation's
+    float midpoint IS the exact midpoint), t spread over 1..44, i.e. relative distances from 2^-51 up to 2^-8; plus a few
+    well separated levels.  Every level is an exactly representable double; scores are compared exactly everywhere."""
+    bases = rng.sample([F(k, 8) for k in range(1, 13)], rng.choice([1, 2, 2, 3]))
+    out = set()
+    ladders = []
+    for b in bases:
+        u = (2 ** rng.randint(1, 44)) * _ulp(b)
+        if rng.random() < 0.6:
+            # a LADDER base, base - u, base - 2u, ... (3-7 rungs, now and then one rung missing): whatever the scale of u,
+            # some pairs of rungs are closer than others by less than a factor 2
+            rungs = [b - j * u for j in range(rng.choice([3, 4, 5, 6, 7]))]
+            if len(rungs) > 3 and rng.random() < 0.3:
+                rungs.pop(rng.randrange(1, len(rungs)))
+        else:
+            rungs = sorted({b + rng.randint(-3, 3) * u * rng.choice([1, 1, 2, 4]) for _ in range(rng.choice([2, 3, 4, 5]))})
+        ladders.append(rungs)
+        out.update(rungs)
+    for _ in range(rng.choice([0, 1, 2])):
+        out.add(F(rng.randint(-4, 12), 8))
+    assert all(F(float(v)) == v for v in out)
+    return sorted(out), ladders
+
+
+def gen_query(rng, rows):
+    """query rows for the PREDICT path: training rows, scores exactly ON a candidate threshold (midpoints between
+    consecutive distinct scores of the group), unseen scores between / beyond the training scores, +-large scores, and now
+    and then a sensitive-feature value the fit has not seen"""
+    gs = sorted({r[0] for r in rows})
+    q = []
+    for r in rng.sample(rows, min(3, len(rows))):
+        q.append([r[0], r[2]])
+    for g in gs:
+        lv = sorted({F(r[2]) for r in rows if r[0] == g})
+        mids = [(a + b) / 2 for a, b in zip(lv, lv[1:])]
+        if mids:
+            q.append([g, str(rng.choice(mids))])
+        q.append([g, str(rng.choice(lv) + rng.choice([F(-1, 128), F(1, 128), F(1, 256)]))])
+        if rng.random() < 0.5:      # just above / below a training score or a candidate threshold, at a random small scale
+            v = rng.choice(lv + mids)
+            w = v + rng.choice([-3, -1, 1, 2]) * (2 ** rng.randint(0, 40)) * _ulp(v if v != 0 else F(1, 8))
+            if F(float(w)) == w:
+                q.append([g, str(w)])
+        if rng.random() < 0.5:
+            q.append([g, str(rng.choice([F(-1000), F(1000), lv[0] - 1, lv[-1] + 1]))])
+    if rng.random() < 0.15:
+        q.append([-1, str(rng.choice([F(0), F(1, 2), F(1)]))])
+    rng.shuffle(q)
+    return q
 
 
 def exhaustive_cases(ngroups, nlevels, max_rows, cfg_cycle):
@@ -175,7 +316,10 @@ def exhaustive_cases(ngroups, nlevels, max_rows, cfg_cycle):
                 continue
             cons, obj, flip, grid = cfg_cycle[k % len(cfg_cycle)]
             k += 1
-            yield {"constraint": cons, "objective": obj, "flip": flip, "grid": grid,
+            # predict path, exhaustively for the small scope: every group at EVERY level, every midpoint between levels
+            # (= every candidate threshold), one step below / above the range, and an unseen sensitive-feature value
+            query = [[g, str(F(q, 4))] for g in range(ngroups) for q in range(-1, 2 * nlevels)] + [[-1, "1/2"]]
+            yield {"constraint": cons, "objective": obj, "flip": flip, "grid": grid, "query": query, "pseed": k,
                    "rows": [[g, l, str(F(s, 2))] for g, l, s in combo], "container": "ndarray", "gnames": "str"}
 
 
@@ -224,6 +368,19 @@ def index_labels(kind, perm, n):
     return None
 
 
+def midpoint_rounds_onto_score(case):
+    """predicate of known finding F18: some group has two consecutive DISTINCT scores a > b whose binary64 midpoint
+    (a + b) / 2 -- computed as the implementation computes it -- is not strictly between them"""
+    gs, rows = groups_of(case)
+    for g in gs:
+        lv = sorted({float(s) for s, _ in rows[g]}, reverse=True)
+        for a, b in zip(lv, lv[1:]):
+            t = (a + b) / 2
+            if not (b < t < a):
+                return True
+    return False
+
+
 def shrink_case(case):
     rows = case["rows"]
     gs = sorted({r[0] for r in rows})
@@ -237,6 +394,9 @@ def shrink_case(case):
     for gsz in (1, 2, 3, 5, 10):
         if gsz < case["grid"]:
             yield dict(case, grid=gsz)
+    if len(case.get("query") or []) > 1:
+        for i in range(len(case["query"])):
+            yield dict(case, query=case["query"][:i] + case["query"][i + 1:])
     for k in ("xidx", "sfidx", "yidx"):
         if case.get(k, "default") != "default":
             yield dict(case, **{k: "default"})
@@ -327,8 +487,36 @@ def run_impl(case):
             "const": float(b.prediction_constant) if "prediction_constant" in b else None,
         }
     pmf = to._pmf_predict(X, sensitive_features=sv)
-    return {"rules": rules, "keys": sorted(str(k) for k in d.keys()),
-            "pmf0": [float(v) for v in pmf[:, 0]], "pmf1": [float(v) for v in pmf[:, 1]]}
+    out = {"rules": rules, "keys": sorted(str(k) for k in d.keys()),
+           "pmf0": [float(v) for v in pmf[:, 0]], "pmf1": [float(v) for v in pmf[:, 1]]}
+    if case.get("query"):
+        # the PREDICT path on rows the fit has not seen (other container than at fit time on purpose)
+        qs = np.array([float(F(s)) for _, s in case["query"]])
+        qg = [qname(case, g) for g, _ in case["query"]]
+        Xq = qs.reshape(-1, 1) if pandas_like else pd.DataFrame({"score": qs})
+        qsf = np.array(qg) if case["container"] in ("list", "list2d") else list(qg)
+        pq = to._pmf_predict(Xq, sensitive_features=qsf)
+        out["qpmf0"] = [float(v) for v in pq[:, 0]]
+        out["qpmf1"] = [float(v) for v in pq[:, 1]]
+        lab = np.asarray(to.predict(Xq, sensitive_features=qsf, random_state=int(case.get("pseed", 0))))
+        out["qlabels"] = [int(v) for v in lab.reshape(-1).tolist()]
+        if int(case.get("pseed", 0)) % 4 == 0:      # every fourth case: the same seed handed over as a RandomState instance
+            lab2 = np.asarray(to.predict(Xq, sensitive_features=qsf,
+                                         random_state=np.random.RandomState(int(case.get("pseed", 0)))))
+            out["qlabels2"] = [int(v) for v in lab2.reshape(-1).tolist()]
+    return out
+
+
+def qname(case, g):
+    """sensitive-feature value of a query row; -1 = a value not seen by fit"""
+    if g == -1:
+        return "unseen" if case.get("gnames", "str") == "str" else 999
+    return gname(case, g)
+
+
+def query_draws(case):
+    """the uniform numbers predict(random_state=pseed) draws for the query rows (trusted generator)"""
+    return [F(float(u)) for u in np.random.RandomState(int(case.get("pseed", 0))).rand(len(case["query"]))]
 
 
 # ------------------------------------------------------------------------------- protocol lines
@@ -349,7 +537,42 @@ def model_lines(case, i_impl):
             out.append(f"thr.eo {case['objective']} {proto.b(case['flip'])} {case['grid']} {f} {sc} {lb}")
         else:
             out.append(f"thr.simple {xm} {ym} {proto.b(case['flip'])} {case['grid']} {f} {sc} {lb}")
+    if case.get("query"):
+        # fit -> predict end to end in the model, at the implementation's grid index (LAST line)
+        gs, _ = groups_of(case)
+        names = proto.strs([str(gname(case, g)) for g in gs])
+        qg = proto.strs([str(qname(case, g)) for g, _ in case["query"]])
+        qs = proto.lst([F(s) for _, s in case["query"]])
+        us = proto.lst(query_draws(case))
+        f = forces[-1]
+        if case["constraint"] == "equalized_odds":
+            out.append(f"thrp.eo {case['objective']} {proto.b(case['flip'])} {case['grid']} {f} {sc} {lb} {names} {qg} {qs} {us}")
+        else:
+            out.append(f"thrp.simple {xm} {ym} {proto.b(case['flip'])} {case['grid']} {f} {sc} {lb} {names} {qg} {qs} {us}")
     return out
+
+
+def same_rule(ir, mr):
+    """implementation's Bunch (floats) and the model's rule (Fractions) are the same randomised rule: the same
+    operations with the same weights (operations of weight <= WTOL ignored), the same p_ignore / prediction_constant"""
+    def ops_i(r):
+        return sorted((str(_thr_val(op[1])), op[0] == ">", float(w)) for w, op in ((r["p0"], r["op0"]), (r["p1"], r["op1"]))
+                      if abs(float(w)) > WTOL)
+
+    def ops_m(r):
+        return sorted((str(op[1]), bool(op[0]), float(w)) for w, op in ((r["p0"], r["op0"]), (r["p1"], r["op1"]))
+                      if abs(float(w)) > WTOL)
+    a, b = ops_i(ir), ops_m(mr)
+    if len(a) != len(b) or any(x[0] != y[0] or x[1] != y[1] or abs(x[2] - y[2]) > TOL for x, y in zip(a, b)):
+        return False
+    if (ir.get("p_ignore") is None) != (mr.get("p_ignore") is None):
+        return False
+    if ir.get("p_ignore") is not None:
+        if abs(ir["p_ignore"] - float(mr["p_ignore"])) > TOL:
+            return False
+        if abs(ir["p_ignore"]) > WTOL and abs(ir["const"] - float(mr["const"])) > TOL:
+            return False
+    return True
 
 
 def _p_op(tok):
@@ -619,4 +842,12 @@ def case_tags(case, o):
         tags.append("group-with-all-scores-tied")
     if any(len({s for s, _ in rows[g]}) < len(rows[g]) for g in gs):
         tags.append("ties-in-group")
+    gaps = [float((b - a) / max(abs(a), abs(b))) for g in gs
+            for a, b in zip(sorted({s for s, _ in rows[g]}), sorted({s for s, _ in rows[g]})[1:]) if max(abs(a), abs(b)) > 0]
+    if gaps and min(gaps) < 1e-6:
+        tags.append("near-tie-scores(rel gap " + ("<1e-12" if min(gaps) < 1e-12 else "<1e-9" if min(gaps) < 1e-9 else "<1e-6") + ")")
+    if case.get("query"):
+        tags.append("predict-path-query")
+        if any(g == -1 for g, _ in case["query"]):
+            tags.append("query-has-unseen-group")
     return tags
